@@ -1,5 +1,8 @@
 /-
-  SSJ.Proofs.Profiler — property C17: the profiler's counts and its comment selection.
+  SSJ.Proofs.Profiler — property C17, the light part: `dedup` lengths (also used by Proofs/Session.lean) and the
+  profiler's comment selection on given counts.  The counts and the percentage strings against the specification
+  (`SSJ/Spec/ProfilerSpec.lean`) are in `SSJ/Proofs/ProfilerExact.lean` (kept apart so that the imports of this file,
+  and with them the `simp` set seen by its importers, stay as they were).
 -/
 import Mathlib.Data.List.Perm.Subperm
 import SSJ.Model.Profiler
@@ -31,37 +34,6 @@ theorem dedup_ne_nil (l : List α) (h : l ≠ []) : dedup l ≠ [] := by
   exact List.ne_nil_of_mem ((mem_dedup l a).mpr ha)
 
 end Dedup
-
-/-! ### counts -/
-
-theorem uniqueCount_le (col : List Cell) : uniqueCount col ≤ col.length :=
-  dedup_length_le col
-
-theorem uniqueCount_pos (col : List Cell) (h : col ≠ []) : 1 ≤ uniqueCount col :=
-  List.length_pos_iff.mpr (dedup_ne_nil col h)
-
-/-- all values distinct ⇔ the unique count equals the number of rows -/
-theorem uniqueCount_eq_length_iff (col : List Cell) : uniqueCount col = col.length ↔ col.Nodup :=
-  dedup_length_eq_iff col
-
-theorem missingCount_le (col : List Cell) : missingCount col ≤ col.length :=
-  List.length_filter_le _ _
-
-theorem missingCount_pos_iff (col : List Cell) :
-    0 < missingCount col ↔ ∃ c ∈ col, c.isMissing = true := by
-  unfold missingCount
-  rw [List.length_pos_iff_exists_mem]
-  simp only [List.mem_filter]
-
-theorem missingCount_eq_zero_iff (col : List Cell) :
-    missingCount col = 0 ↔ ∀ c ∈ col, c.isMissing = false := by
-  unfold missingCount
-  rw [List.length_eq_zero_iff, List.filter_eq_nil_iff]
-  simp
-
-theorem uniqueCount_bounds (col : List Cell) (h : col ≠ []) :
-    1 ≤ uniqueCount col ∧ uniqueCount col ≤ col.length :=
-  ⟨uniqueCount_pos col h, uniqueCount_le col⟩
 
 /-! ### comment selection -/
 
@@ -151,67 +123,5 @@ theorem comment_prefix_iff (u m n : Nat) (fm : String) :
   · have : ¬ ignorePrefix.toList <+: "".toList := by decide
     simp only [this, false_iff]
     exact h2
-
-/-! ### C17 for `profileColumn` -/
-
-/-- "This attribute can be used as a key attribute." ⇔ all values distinct and none missing -/
-theorem profileColumn_key_iff (col : List Cell) :
-    (profileColumn col).2.2 = "This attribute can be used as a key attribute." ↔
-      col.Nodup ∧ ∀ c ∈ col, c.isMissing = false := by
-  unfold profileColumn
-  simp only
-  rw [comment_key_iff, uniqueCount_eq_length_iff, missingCount_eq_zero_iff]
-
-/-- "Joining on this attribute will ignore <missing stat> rows." ⇔ some value is missing -/
-theorem profileColumn_ignore_iff (col : List Cell) :
-    (profileColumn col).2.2 =
-        s!"Joining on this attribute will ignore {(profileColumn col).2.1} rows." ↔
-      ∃ c ∈ col, c.isMissing = true := by
-  unfold profileColumn
-  simp only
-  rw [comment_ignore_iff', missingCount_pos_iff]
-
-/-- the comment starts with "Joining on this attribute will ignore " ⇔ some value is missing -/
-theorem profileColumn_ignore_prefix_iff (col : List Cell) :
-    "Joining on this attribute will ignore ".toList <+: (profileColumn col).2.2.toList ↔
-      ∃ c ∈ col, c.isMissing = true := by
-  unfold profileColumn
-  simp only
-  rw [← missingCount_pos_iff]
-  exact comment_prefix_iff _ _ _ _
-
-/-- the comment is empty ⇔ no value is missing but some value repeats -/
-theorem profileColumn_empty_iff (col : List Cell) :
-    (profileColumn col).2.2 = "" ↔ ¬ col.Nodup ∧ ∀ c ∈ col, c.isMissing = false := by
-  unfold profileColumn
-  simp only
-  rw [comment_empty_iff, ← uniqueCount_eq_length_iff, missingCount_eq_zero_iff]
-
-/-- a column with a missing value is never reported as a key -/
-theorem profileColumn_missing_not_key (col : List Cell) (h : ∃ c ∈ col, c.isMissing = true) :
-    (profileColumn col).2.2 ≠ "This attribute can be used as a key attribute." := by
-  rw [Ne, profileColumn_key_iff]
-  rintro ⟨_, h2⟩
-  obtain ⟨c, hc, hm⟩ := h
-  rw [h2 c hc] at hm
-  cases hm
-
-/-- the three comments are mutually exclusive and exhaustive -/
-theorem profileColumn_comment_cases (col : List Cell) :
-    (profileColumn col).2.2 = "This attribute can be used as a key attribute." ∨
-    (profileColumn col).2.2 = s!"Joining on this attribute will ignore {(profileColumn col).2.1} rows." ∨
-    (profileColumn col).2.2 = "" := by
-  unfold profileColumn
-  simp only
-  rw [comment_eq]
-  split_ifs
-  · exact Or.inl rfl
-  · exact Or.inr (Or.inl rfl)
-  · exact Or.inr (Or.inr rfl)
-
-/-- the count bounds for a non-empty table -/
-theorem profileColumn_counts (col : List Cell) (h : col ≠ []) :
-    missingCount col ≤ col.length ∧ 1 ≤ uniqueCount col ∧ uniqueCount col ≤ col.length :=
-  ⟨missingCount_le col, uniqueCount_pos col h, uniqueCount_le col⟩
 
 end SSJ.Profiler
